@@ -29,6 +29,12 @@ for sid in sys.argv[1:]:
                  "rare option combination or input form, state carried over between calls, an error path, or an interaction between "
                  "two features (e.g. restart + block writes, compression + continuous, several subchannels + complex, reversed listing "
                  "+ window). It must still be small, realistic and pass the existing suite.\n\n") if sid[3:] >= "e" else ""
+    if sid[3:] >= "g":
+        WAVE_NOTE += ("ALSO CONSIDER dimensions of the environment rather than of the data: the form in which a caller passes an argument "
+                      "(numpy scalar, float holding an integer, bytes vs str path, relative path, trailing slash, pathlib.Path), several "
+                      "objects of the library alive in one process (two writers, a writer and a reader, two readers), process-wide state "
+                      "(static variables in C, module-level caches in Python, the current working directory, the locale), the order in "
+                      "which public calls are made on one object, resource limits, and what is left on disk by an earlier run.\n\n")
     txt = txt.replace("DELIVERABLES, all inside", WAVE_NOTE + "DELIVERABLES, all inside", 1) if WAVE_NOTE else txt
     if prev:
         div = ("DIVERSITY: other engineers already seeded these changes for the same property — " + "; ".join('"%s"' % s for s in prev) +
